@@ -334,3 +334,16 @@ Theorem lexer_skip_value_open l r :
 Proof.
   intros H. unfold lx_skip_value. eval_ids. unfold lx_skip_container. rewrite (lexer_skip_lands _ _ H). reflexivity.
 Qed.
+
+(* a buffer larger than the whole input fits it *)
+Lemma fits_whole cap input : length input < cap -> fits cap input = true.
+Proof. intros H. unfold fits. apply fits_big. assumption. Qed.
+
+(* a fitting capacity holds every token the slice lexer reads *)
+Lemma fits_max_token : forall f cap d, fits_fuel f cap d = true -> max_token_fuel f d <= cap.
+Proof.
+  induction f as [|f IH]; intros cap d H; [cbn; lia|].
+  cbn [fits_fuel max_token_fuel] in *. apply andb_prop in H as [H1 H2].
+  destruct (read_token d) as [[t r]| | | |] eqn:E; try lia.
+  pose proof (tok_fits_size _ _ _ _ H1 E). specialize (IH _ _ H2). lia.
+Qed.
